@@ -242,7 +242,10 @@ pub fn serve_credssp(io: &mut ServerIo, srv: &Value) -> bool {
     let ts: [u8; 8] = [0x80, 0x3e, 0xd5, 0xde, 0xb1, 0x9d, 0x01, 0x01];
     let chal = ChallengeSpec { flags, challenge: [1, 2, 3, 4, 5, 6, 7, 8], target_name: utf16le("RDPSRV"), target_info: default_target_info(ts) };
     let cm = challenge_message(&chal);
-    if io.send(&ts_request(version, Some(&cm), None, None), "TsReqChallenge").is_err() { return false; }
+    let mut first = ts_request(version, Some(&cm), None, None);
+    // C07: the whole first reply may be faulted (Faults.tla descriptors)
+    if let Some(fs) = srv.get("challenge_faults").and_then(|x| x.as_array()) { for d in fs { first = crate::faults::apply(&first, d); } }
+    if io.send(&first, "TsReqChallenge").is_err() { return false; }
     let r2 = match io.recv_der() { Ok(b) => b, Err(_) => return false };
     let t2 = match parse_ts_request(&r2) { Some(t) => t, None => return false };
     let (auth_tok, pka) = match (t2.nego, t2.pub_key_auth) { (Some(a), Some(p)) => (a, p), _ => return false };
